@@ -232,7 +232,9 @@ class LALR_Analyzer(GrammarAnalyzer):
             includes = []
             lookback = self.lookback[nt]
             for rp in state.closure:
-                if rp.rule.origin != nonterminal:
+                if rp.rule.origin != nonterminal or rp.index != 0:
+                    # Only the items that start here belong to this transition. A kernel item of the same
+                    # origin (index > 0) started in an earlier state, and would add a bogus 'includes' edge.
                     continue
                 # traverse the states for rp(.rule)
                 state2 = state
